@@ -216,6 +216,10 @@ func runConcExplore(args []string) int {
 					rep.violate("conc/final-file/"+kind, fmt.Sprintf("program %d schedule %v: %s", pi, taken, m),
 						map[string]any{"family": "conc-explore", "kind": kind, "program": progs, "schedule": taken})
 				}
+				if m := storeExtraCheck(st, rec.evs); m != "" {
+					rep.violate("conc/listeners/"+kind, fmt.Sprintf("program %d schedule %v: %s", pi, taken, m),
+						map[string]any{"family": "conc-explore", "kind": kind, "program": progs, "schedule": taken})
+				}
 				for _, e := range rec.evs {
 					e.Run = run
 					b, _ := json.Marshal(e)
